@@ -51,6 +51,10 @@ P = {
   "The real shell/antimeridian/collection/frame builders and the cache logic of Grid.to_polycollection / to_geodataframe / to_linecollection and of the UxDataArray wrappers run over recording stubs of matplotlib, shapely, (geo|spatial)pandas, antimeridian and cartopy. With all node longitudes symbolic, z3 shows: antimeridian_face_indices are exactly the faces with an edge spanning >= 180 deg; under 'exclude' polygon/row k is the k-th non-crossing face (corners in order, first corner repeated) and corrected_to_original_faces / the data value k belong to it; under 'ignore'/'split' one polygon per face in order, 'split' passes exactly the crossing faces through fix_polygon, paired with their own face; data stay aligned for both engines. With conversion arguments and 2-3 call histories symbolic: every result equals a fresh conversion with its own arguments, objects handed out earlier are not altered, polycollections are distinct objects, the grid's node_lon is unchanged.",
   "Outside: what shapely / antimeridian.fix_polygon / cartopy compute (pure-function stubs), float32 rounding of shells (0.5 deg margin from |dlon|=180), 'split' piece geometry. Bounds: 4 faces (2 quads + 2 triangles, padding present) over 8 nodes; histories over periodic_elements x projection in {None, lon_0=0, lon_0=90} x cache x override (x engine, x via-data), argument domains per obligation in the evidence. Abstracted: candidates are replayed on the real libraries (matplotlib, spatialpandas, geopandas, cartopy Robinson).",
   "DESIGN.md §2 C15"),
+ "C11": (True,
+  "sklearn's trees are replaced by a recorder. (i) Over 2-3 call histories of get_ball_tree / get_kd_tree with symbolic (element kind, coordinate system, metric, reconstruct) the tree handed back was built from the requested element kind's arrays in the requested system ((lat,lon) radians or xyz) with the requested metric. (ii) With symbolic query points, k and radius: the columns handed to sklearn are the query point in the order and unit of the tree's own columns, the radius is converted to radians exactly when the tree is spherical and in_radians=False, returned distances are converted back likewise, row i answers query i (squeeze for single points), k outside 1..n and negative radii raise.",
+  "Outside the claim: that sklearn's search returns the true k nearest / radius set (compiled code) - and with it the antimeridian/pole clause, which follows from the metric being haversine/chord if sklearn is right. Candidates are replayed on the real sklearn trees and judged by a brute-force search under the tree's metric. Bounds: 5-node grid, 1-2 query points, k in 0..7, 4 tree configurations.",
+  "DESIGN.md §2 C11"),
 }
 NA = {
  "C10": "Quantifies over arbitrary compositions of xarray's own operations; whether the grid survives is decided inside xarray/numpy C-level dispatch which symbolic values cannot cross, and there is no bounded uxarray kernel to encode (DESIGN.md §4).",
